@@ -10,7 +10,7 @@ import LdkModel.Generated.WireTypes
                            `ok Unknown <id> ignore|disconnect` (peerDispatch) / `err <DecodeError>`
                            custom codecs (Model/MsgCustom.lean) append the parsed structure to the `ok` line:
                            (Unsigned)NodeAnnouncement ` a=<descriptor type bytes, comma separated> x=<len excess_address_data> e=<len excess_data>`,
-                           QueryShortChannelIds / ReplyChannelRange ` n=<number of ids>`; Init: nothing
+                           QueryShortChannelIds / ReplyChannelRange ` n=<number of ids>`; OnionMessage ` h=<len hop_data>`; Init: nothing
     bigsize <hex>          BigSize.decode; `ok <n> <rest hex>` / `err <DecodeError>`
     bigenc <n>             BigSize.encode -/
 namespace Ldk.Driver
@@ -42,6 +42,10 @@ def customDec (name : String) (b : Bytes) : Option (Except String (String × Str
   else if name == "Init" then
     some (match Custom.decodeInit b with
       | .ok m => .ok (hex (Custom.encodeInit m), "")
+      | .error e => .error e.name)
+  else if name == "OnionMessage" then
+    some (match Custom.decodeOnionMsg b with
+      | .ok (m, _) => .ok (hex (Custom.encodeOnionMsg m), s!" h={Custom.hopLenOf m.packet}")
       | .error e => .error e.name)
   else none
 
